@@ -16,6 +16,8 @@
         `valueless_domain_path_ignored` : the same with the clock, `cookies.is_expired` and the attribute lookup inside the model
   * `attached_only_if_spec_match_hdr`, `jar_is_last_write_hdr` : the same for histories given by the TEXT of the Set-Cookie
         headers (tokenizer = C34's transcription of `_read_set_cookie_pairs`); only email.utils' date verdict stays a parameter
+  * `expired_removed_partial` : `expired_removed` under the name its guard calls for; `empty_domain_matches_nothing` : the
+        RFC spec for an empty Domain value (host-only, §5.2.3)
   * `expired_removed` : after an accepted expired Set-Cookie there is no cookie of that name under its key, and no
         empty dict is left behind; `expired_removed_history`: the same at the end of any history;
         `jar_no_empty_dicts`: the jar never holds an empty dict
@@ -131,6 +133,22 @@ theorem expired_removed_history (evs : List Event) (host : Bytes) (port : Nat) (
 /-- the jar never holds an empty dict (`if not self.jar[dom_port_path]: self.jar.pop(...)`) -/
 theorem jar_no_empty_dicts (evs : List Event) (k : JKey) (d : Dict) (h : (k, d) ∈ runJar [] evs) : d ≠ [] :=
   run_nonempty evs (by simp) k d h
+
+/-- `expired_removed` under its proper name: it is the PARTIAL form of the expiry clause — guarded by the code's own
+    acceptance test `implDomainMatch`; the full RFC reading is `ExpiredRemovedRFC` below, with
+    `expired_removed_rfc_partial` and `expired_removed_rfc_counterexample` (finding F-C54g). -/
+theorem expired_removed_partial (jar : Jar) (host : Bytes) (port : Nat) (c : Cookie)
+    (hexp : c.expired = true) (hguard : implDomainMatch host (ckey c host port).domain = true) :
+    ∀ d, (ckey c host port, d) ∈ setCookie jar host port c → d ≠ [] ∧ ∀ v, (c.name, v) ∉ d :=
+  expired_removed jar host port c hexp hguard
+
+/-- **Empty Domain value.** An empty cookie domain (`Domain=` or `Domain=.`) suffix-matches nothing in the RFC reading used
+    here (§5.2.3 / §5.3 step 4: such a cookie is host-only): for every host that is not the attribute string itself the
+    spec says no — in particular for hosts ending in a dot, which the earlier form of `domainMatch6265` let through. -/
+theorem empty_domain_matches_nothing (isIP : Bytes → Bool) (host dom : Bytes)
+    (hd : dropDot (asciiLower dom) = []) (hne : asciiLower host ≠ asciiLower dom) (hne' : asciiLower host ≠ []) :
+    domainMatch6265 isIP host dom = false := by
+  simp [domainMatch6265, hd, hne, hne']
 
 /-! ### the jar as a function of the whole history -/
 
@@ -309,6 +327,10 @@ example : implDomainMatch (s "x.example.com.evil.org") (s ".example.com") = fals
     implDomainMatch (s "example.com") (s "example.com.") = false ∧
     implDomainMatch (s "www.Example.com") (s ".example.COM") = true ∧
     implDomainMatch (s "example.com") (s ".example.com") = true := by decide +kernel
+-- empty Domain values: neither the code nor the RFC spec lets "example.com." (or anything else) match them
+example : domainMatch6265 stdIP (s "example.com.") (s "") = false ∧ domainMatch6265 stdIP (s "example.com.") (s ".") = false ∧
+    implDomainMatch (s "example.com.") (s "") = false ∧ implDomainMatch (s "example.com.") (s ".") = false ∧
+    domainMatch6265 stdIP (s "sub.example.com") (s ".example.com") = true := by decide +kernel
 -- an IP host never suffix-matches
 example : domainMatch6265 stdIP (s "1.2.3.4") (s ".3.4") = false ∧ implDomainMatch (s "1.2.3.4") (s ".3.4") = false := by decide +kernel
 -- last write wins: re-set, then expired
@@ -378,8 +400,9 @@ example : lastWrite (twoHist ++ [.resp (s "b.example.com") 80 [ck "sid" "2" [("D
 -- `max_age_nonpositive_is_expired` applied (hypotheses hold together): Max-Age=-5 with a far-future Expires
 example : isExpired 1000 (at' [("Expires", some "x"), ("Max-Age", some "-5")]) (some 999999) = true :=
   max_age_nonpositive_is_expired 1000 _ _ (s "-5") (-5) (by decide +kernel) (by decide +kernel) (by decide)
--- note for the owner (spec corner, harmless): an EMPTY Domain value makes the Lean RFC spec say "match" for every non-IP
--- host that ends in a dot, while the code (and a host-only reading of RFC 6265 §5.2.3) says no
-example : domainMatch6265 stdIP (s "example.com.") [] = true ∧ implDomainMatch (s "example.com.") [] = false := by decide +kernel
+-- auditor's note (spec corner): an EMPTY Domain value used to make the Lean RFC spec say "match" for every non-IP host that
+-- ends in a dot.  Owner round 6: `domainMatch6265` now treats an empty cookie domain as host-only (§5.2.3), so spec and code
+-- agree here (`empty_domain_matches_nothing`); the example is kept with the corrected value
+example : domainMatch6265 stdIP (s "example.com.") [] = false ∧ implDomainMatch (s "example.com.") [] = false := by decide +kernel
 
 end MitmVerif.Props.C54
